@@ -424,6 +424,7 @@ fn case_bdec(out: &mut Out, b: Vec<u8>, tag: &str) {
         crate::childrun::Outcome::Value(v) => (v, Ok(())),
         crate::childrun::Outcome::Panic(p) => ("PANIC".into(), Err(format!("decode_message_batch panicked: {p}"))),
         crate::childrun::Outcome::Abort(a) => ("ABORT".into(), Err(format!("decode_message_batch aborted the process: {a}"))),
+        crate::childrun::Outcome::Hang => ("HANG".into(), Err("decode_message_batch did not return".into())),
     };
     out.case(&line, &imp, mon);
 }
